@@ -608,6 +608,7 @@ class C17(Profile):
     prop = "C17"
     eval_stats = ('conform_checked', 'raw_conformed', 'selects_checked')
     claims = {k: "C17" for k in ("factory_not_conformed", "conform_not_idempotent", "select_incoherent", "conform_exception",
+                                 "conform_lost_payload",
                                  "rows_mismatch", "columns_mismatch", "keys_mismatch")}
     both_orders = True
     dn_rule = ("SQL trees built through the API, raw trees assembled bottom-up with the dataclass constructors and conformed, "
